@@ -16,7 +16,7 @@ PROPS = {
              "(2) harness-owned scheduler executes the tables with rows of a level in generated / reversed order and compares bitwise with the serial sweep; "
              "(3) thread-count differential: the same case under omp_set_num_threads in {1,2,3,4,5,8,16,17,24,32}, bitwise for products / hierarchies / sweeps / vector kernels (real and complex values), rounding bounds for reductions (real and complex inner products), emin and ILU. "
              "Domain: all n x n off-diagonal patterns n<=4 (n<=5 thorough) exhaustively at 4 and 5 threads, the same patterns crossed with every set of rows that store no diagonal entry (relaxed with D = I) for n<=3 and a fifth of n=4 (all of n=4 thorough), random graphs up to n=300 with independently deleted directions (structural non-symmetry) at 4,5,8,17,24 threads. "
-             "non-trivial: structurally non-symmetric pattern or >=3 levels (schedules), >=2 levels (hierarchies). distinct = distinct decoded choice sequences.",
+             "Hierarchies are also built with 2-3 generated near-null-space vectors (aggregation-type coarsenings, depth capped). non-trivial: structurally non-symmetric pattern or >=3 levels (schedules), >=2 levels (hierarchies). distinct = distinct decoded choice sequences.",
         assumptions=["levels are separated by OpenMP barriers and a row writes only its own unknown, so the schedule invariant implies interleaving independence",
                      "real OS interleavings are sampled, not enumerated"],
         min_nontrivial=200,
